@@ -53,9 +53,21 @@ func ZZ_C18_Stream() {
 	ws := &wsConn{c: conn}
 	var got []byte
 	sawErr := false
+	idle := 0
+	empties := 0
+	for _, m := range msgs {
+		if len(m.payload) == 0 {
+			empties++
+		}
+	}
 	for i := 0; i < reads; i++ {
 		p := make([]byte, zzrt.Concrete(zzrt.IntRange(1, maxL+1)))
 		n, err := ws.Read(p)
+		if n == 0 && err == nil {
+			// only an empty message can make a read return nothing without an error
+			idle++
+			zzrt.Assert(idle <= empties, "read-makes-progress")
+		}
 		got = append(got, p[:n]...)
 		if err != nil {
 			sawErr = true
